@@ -161,22 +161,19 @@ EMPTY6 = "- - - - - -"
 
 
 def examined(op, ans):
-    """responses _handle_responses looked at: all, or up to and including the raising one"""
-    if ans == ["ok"]:
-        return op["resps"]
+    """the responses whose stale-routing answers must have invalidated: ALL of them (C08: a not-leader answer
+    invalidates - also behind the first error that fail_on_error raises, 55f24eb) - except that a TypeError
+    (coordinator error code on a call without a group) propagates at once: up to and including that response"""
     if ans == ["raise TypeError"]:
-        raised = None
-    else:
-        try:
-            raised = int(ans[0].split(" ")[1])
-        except (ValueError, IndexError):
-            return []
-    out = []
-    for t, e in op["resps"]:
-        out.append((t, e))
-        if e != 0 and ((raised is None and e in (14, 15, 16)) or e == raised):
-            break
-    return out
+        out = []
+        for t, e in op["resps"]:
+            out.append((t, e))
+            if e in (14, 15, 16):
+                break
+        return out
+    if ans == ["ok"] or ans[0].startswith("raise "):
+        return op["resps"]
+    return []
 
 
 def check_direct(ctx, res, histories, label="direct"):
